@@ -239,7 +239,9 @@ def rule_parse_frame(rep: Report, rid: str) -> None:
     le = P.loop_exit()
     cond = le[1] if le else None
     eof_forms = [("call", ".eof", (tok,), ()), ("eof", tok)] if tok else []
-    exits = [n for n, c in nf.iter_nodes(loop[2]) if n[0] in ("return", "raise")]
+    # other ways out of the loop: raises anywhere, returns of parse itself (a callee's return only ends the callee)
+    exits = [n for n, c in nf.iter_nodes(loop[2]) if (n[0] == "raise" or (n[0] == "return" and not any(x[0] == "call" for x in c)))
+             and not (le and len(le) > 3 and n is le[3])]
     ok = cond in eof_forms and not exits
     if ok and le[2] == "break":
         ok = P.index(le[3]) > P.index(mt[0][0]) if mt else False
@@ -406,7 +408,7 @@ def rule_queue(rep: Report, rid="C18.queue") -> None:
     from ..absint import HList, fmt
     q = P.ctx_attr("token_queue")
     o = P.I.obj(q) if q else None
-    ok = isinstance(o, HList) and not o.segs and o.origin[0] == P.fi.qualname and not [n for n, c in P.flat if n[0] == "mutate" and n[1] == q]
+    ok = isinstance(o, HList) and not o.segs and o.origin[2] != 0 and not [n for n, c in P.flat if n[0] == "mutate" and n[1] == q]
     rep.ob(rid, "each parse starts with a fresh, empty look-ahead queue (deque)", ok, file=PARSER_FILE, line=P.fi.node.lineno, function=P.fi.qualname,
            expected="ParserContext(..., deque(), ...)", found=fmt(q, P.I) if q else None)
 
